@@ -721,6 +721,29 @@ func c09poller(c *Ctx, a *alphAnchors) {
 		R.Check("C09.isolate", R.Key("C09.isolate", shortFn(a.handleEvents_), "every-event-filed"), c.rel(p.Pos(instrPos(l.Header.Instrs[0]))), "every event of a received batch is put into the pending set", okAll, "an iteration over the batch can finish without filing its event (an event is skipped because of its content)")
 	}
 	R.Floor("C09.isolate.batch-loop", nloop, 1)
+	// filing only adds: a store to the list of an entry that may already be in the pending set
+	// (outside the confirmation pass, which removes what it handed on) writes append(<that list>, …) —
+	// a second batch with events of the same block never replaces the ones already waiting
+	ngrow := 0
+	for _, f := range append([]*ssa.Function{a.handleEvents_}, a.handleEvents_.AnonFuncs...) {
+		eachInstr(f, func(i ssa.Instruction) {
+			st, ok := i.(*ssa.Store)
+			if !ok || fieldOfAddr(st.Addr) != evF || isFreshAlloc(st.Addr) || inPendingPass(st.Block()) {
+				return
+			}
+			ngrow++
+			okG := false
+			if cl, isCall := strip(st.Val).(*ssa.Call); isCall && facts.CalleeName(&cl.Call) == "append" && len(cl.Call.Args) >= 1 {
+				if ld, isLd := strip(cl.Call.Args[0]).(*ssa.UnOp); isLd && ld.Op == token.MUL && fieldOfAddr(ld.X) == evF {
+					fa1, ok1 := ld.X.(*ssa.FieldAddr)
+					fa2, ok2 := st.Addr.(*ssa.FieldAddr)
+					okG = ok1 && ok2 && fa1.X == fa2.X
+				}
+			}
+			R.Check("C09.isolate", R.Key("C09.isolate", shortFn(f), "pending-list-only-grows"), c.rel(p.Pos(st.Pos())), "filing writes append(<the block's pending list>, …): events already waiting for that block are kept", okG, "the pending list of a block that may already hold events is overwritten with "+facts.Term(st.Val))
+		})
+	}
+	R.Floor("C09.isolate.pending-list-only-grows", ngrow, 1)
 }
 
 // c09deadline: every request to the Alephium node carries the client's per-request deadline: the
